@@ -118,6 +118,7 @@ type Runner struct {
 	Nodes []*Node
 	Bound map[string]uint64 // committed uuid bindings
 	Used  map[uint64]string
+	UsedCap map[string]string
 	Minted    map[uint64]bool // uuids handed out in committed executions (primary)
 	Destroyed map[uint64]bool
 	V     []Violation
@@ -126,7 +127,7 @@ type Runner struct {
 }
 
 func NewRunner(p *Plan, opts RunOpts) *Runner {
-	r := &Runner{P: p, Opts: opts, Model: NewModel(p.NAccts), Bound: map[string]uint64{}, Used: map[uint64]string{}, Minted: map[uint64]bool{}, Destroyed: map[uint64]bool{}, Stats: NewRunStats()}
+	r := &Runner{P: p, Opts: opts, Model: NewModel(p.NAccts), Bound: map[string]uint64{}, Used: map[uint64]string{}, UsedCap: map[string]string{}, Minted: map[uint64]bool{}, Destroyed: map[uint64]bool{}, Stats: NewRunStats()}
 	for _, nc := range p.Nodes {
 		r.Nodes = append(r.Nodes, NewNode(nc, NewWorld()))
 	}
@@ -180,6 +181,7 @@ var failTypes = map[string][]string{
 	FCtIncompat: {"*stdlib.ContractUpdateError*"},
 	FCtRemoval:  {"*stdlib.ContractRemovalError"},
 	FChecker:    {"*sema.CheckerError*"},
+	FCapAddr:    {"*interpreter.CapabilityAddressPublishingError", "interpreter.CapabilityAddressPublishingError"},
 	"invalidRef": {"interpreter.InvalidatedResourceReferenceError", "*interpreter.InvalidatedResourceReferenceError", "interpreter.DereferenceError", "*interpreter.DereferenceError"},
 }
 
@@ -198,6 +200,17 @@ func failTypeOK(kind, errType string) bool {
 const phOpen, phClose = "‹", "›"
 
 func (r *Runner) matchOne(exp, act string, tent map[string]uint64) bool {
+	if strings.HasPrefix(exp, "~") {
+		// set / multiset observation: placeholders must be bound by now; both sides are compared in natural order
+		e := subst(exp, r.Bound, tent)
+		k := strings.Index(e, "=[")
+		if k < 0 || !strings.HasSuffix(e, "]") {
+			return e == act
+		}
+		parts := splitTop(e[k+2 : len(e)-1])
+		naturalSort(parts)
+		return e[:k+2]+strings.Join(parts, ", ")+"]" == act
+	}
 	for {
 		i := strings.Index(exp, phOpen)
 		if i < 0 {
@@ -378,6 +391,20 @@ func (r *Runner) step(i int) {
 	if modelled && t0.Class == "ok" && pred.Fail == "" && s.Kind == "tx" {
 		r.Model = next
 		for k, v := range tent {
+			if strings.HasPrefix(k, "c") {
+				// capability ids are per account: "issued IDs are fresh"
+				var n int
+				fmt.Sscanf(k, "c%d", &n)
+				if ctl := r.Model.Caps.Ctls[n]; ctl != nil {
+					key := fmt.Sprintf("%d/%d", ctl.Acct, v)
+					if other, dup := r.UsedCap[key]; dup && other != k {
+						r.violate("C25", "capability-id.fresh", i, prim.Cfg.Name, "cap-id-reuse", "capability id %d issued in account %d for %s was already issued for %s", v, ctl.Acct, k, other)
+					}
+					r.UsedCap[key] = k
+				}
+				r.Bound[k] = v
+				continue
+			}
 			if other, dup := r.Used[v]; dup && other != k {
 				r.violate("C02", "uuid.fresh", i, prim.Cfg.Name, "uuid-reuse", "uuid %d of new resource %s already belongs to %s", v, k, other)
 			}
@@ -661,6 +688,10 @@ func (r *Runner) checkModel(i int, s *Step, pred *Pred, t *Transcript, tent map[
 	var act2 []string
 	for k, e := range act {
 		if strings.HasSuffix(t.EventIDs[k], ".World.End") {
+			continue
+		}
+		// the standard capability / inbox events are not modelled (they are still compared between replicas)
+		if strings.HasPrefix(t.EventIDs[k], "flow.") && !strings.HasPrefix(t.EventIDs[k], "flow.AccountContract") {
 			continue
 		}
 		act2 = append(act2, e)
